@@ -224,3 +224,65 @@ Example ex_reversed_row_needed :
   intersects (build 1 rows [0; 1] 2) [0; 10]%Z = [0; 1] /\
   filter (fun i => overlapsb 1 (nth i rows []) [0; 10]%Z) (seq 0 2) = [1].
 Proof. vm_compute. split; reflexivity. Qed.
+
+(* ==== the answers depend only on the ORDER of the coordinates (session 4) ====
+   The correspondence check also runs builds whose coordinates are arbitrary
+   doubles (huge, tiny, many-digit decimals, one ulp apart) and whose rows and
+   query boxes have sides at -inf / +inf.  The model is evaluated on the RANKS
+   of the distinct values (-inf the least, +inf the greatest).  C03_monotone
+   justifies the renaming for the model; C03_unbounded_query says that a query
+   side beyond every coordinate of the data acts as an absent constraint
+   (what -inf / +inf mean); C03_everything_query is the query
+   (-inf, .., +inf, ..): every row that has a box, all covered. *)
+From SP Require Import Proofs.RtreeMonotone.
+
+Theorem C03_monotone : forall f d rows keys ps q,
+  (forall x y, (x < y)%Z -> (f x < f y)%Z) ->
+  1 <= d -> Forall (wf_box d) rows -> Permutation keys (seq 0 (length rows)) ->
+  length q = 2 * d ->
+  let T := build d rows keys ps in
+  let T' := build d (map (map (option_map f)) rows) keys ps in
+  Permutation (intersects T' (map f q)) (intersects T q) /\
+  Permutation (fst (covers_overlaps T' (map f q))) (fst (covers_overlaps T q)) /\
+  Permutation (snd (covers_overlaps T' (map f q))) (snd (covers_overlaps T q)) /\
+  total_bounds T' = map (option_map f) (total_bounds T).
+Proof. exact RtreeMonotone.C03_monotone. Qed.
+Print Assumptions C03_monotone.
+
+Theorem C03_unbounded_query : forall d rows keys ps q q',
+  1 <= d -> Forall (wf_box d) rows -> Permutation keys (seq 0 (length rows)) ->
+  length q = 2 * d -> length q' = 2 * d ->
+  (forall k, k < d ->
+    (nth k q 0%Z = nth k q' 0%Z \/
+     ((forall r x, In r rows -> In (Some x) r -> (nth k q 0 <= x)%Z) /\
+      (forall r x, In r rows -> In (Some x) r -> (nth k q' 0 <= x)%Z))) /\
+    (nth (d + k) q 0%Z = nth (d + k) q' 0%Z \/
+     ((forall r x, In r rows -> In (Some x) r -> (x <= nth (d + k) q 0)%Z) /\
+      (forall r x, In r rows -> In (Some x) r -> (x <= nth (d + k) q' 0)%Z)))) ->
+  let T := build d rows keys ps in
+  Permutation (intersects T q) (intersects T q') /\
+  Permutation (fst (covers_overlaps T q)) (fst (covers_overlaps T q')) /\
+  Permutation (snd (covers_overlaps T q)) (snd (covers_overlaps T q')).
+Proof. exact RtreeMonotone.C03_unbounded_query. Qed.
+Print Assumptions C03_unbounded_query.
+
+Theorem C03_everything_query : forall d rows keys ps q,
+  1 <= d -> Forall (wf_box d) rows -> Permutation keys (seq 0 (length rows)) ->
+  length q = 2 * d ->
+  (forall k, k < d ->
+     (forall r x, In r rows -> In (Some x) r -> (nth k q 0 <= x)%Z) /\
+     (forall r x, In r rows -> In (Some x) r -> (x <= nth (d + k) q 0)%Z)) ->
+  let T := build d rows keys ps in
+  Permutation (intersects T q) (filter (fun i => row_finite (nth i rows [])) (seq 0 (length rows))) /\
+  Permutation (fst (covers_overlaps T q)) (intersects T q) /\
+  snd (covers_overlaps T q) = [].
+Proof. exact RtreeMonotone.C03_everything_query. Qed.
+Print Assumptions C03_everything_query.
+
+(* non-vacuity: ranks 0..5 of (-inf, 0, 1, 2, 3, +inf); the row [-inf, 1] and
+   the half-line query [2, +inf] *)
+Example ex_unbounded :
+  let rows := [[Some 0; Some 2]; [Some 3; Some 4]; [None; None]]%Z in
+  intersects (build 1 rows [0; 1; 2] 2) [3; 5]%Z = [1] /\
+  covers_overlaps (build 1 rows [0; 1; 2] 2) [0; 5]%Z = ([0; 1], []).
+Proof. vm_compute. split; reflexivity. Qed.
